@@ -159,8 +159,7 @@ def h : Handler := fun op j =>
   | "categorize" => do
       match categorize (← getSys j "sys") (← getChecks j) with
       | .ok c => pure (Json.arr #[jStrs c.accumulated, jStrs c.depleted, jStrs c.unaffected, jStrs c.nonparticipating]).compress
-      | .error (.check c) => pure (checkName c)
-      | .error .indexError => pure "IndexError"
+      | .error c => pure (checkName c)
   | "identify_equilibria" => do
       pure (Json.arr ((identifyEquilibria (← getSys j "sys")).map fun p => Json.arr #[toJson p.1, toJson p.2]).toArray).compress
   | "participation" => do
